@@ -71,3 +71,34 @@ static void c04_run(void) {
 }
 const prop_def prop_C04 = { "C04", NULL, c04_run, qprog_counter_names,
 	"non-trivial: >=2 items completed, at least one pre-emption/stall inside the concurrent queue's atomics; distinct = distinct schedule signatures among those (runs_with_overlapping_readers reports how often the width accounting was really exercised)" };
+
+/* ---- C05: synchronous forms return after completion (logic half; see DESIGN 3.5) ---- */
+static void c05_run(void) {
+	qgen g; qgen_defaults(&g);
+	g.oracles = O_SYNCRET;
+	g.opmask |= (1u << OP_BARRIER_AAW) | (1u << OP_APPLY);
+	g.qkindmask |= 1u << QK_WORKLOOP;
+	g.max_queues = 5; g.max_qdepth = 3; g.nest_pct = 30;
+	g.min_clients = 2; g.max_clients = 4; g.max_ops = (RC.cfg & CFG_THOROUGH) ? 12 : 8;
+	g.bodymask |= 1u << B_SLEEP;
+	if (g_chance(1, 5)) { g.use_main = 1; g.qkindmask |= 1u << QK_MAIN; }
+	qprog_run(&g);
+}
+const prop_def prop_C05 = { "C05", NULL, c05_run, qprog_counter_names,
+	"non-trivial: >=2 items completed with a pre-emption/stall inside a queue's atomics; distinct = distinct schedule signatures among those (sync_calls counts the synchronous submissions judged)" };
+
+/* ---- C06: inactive and suspended queues ---- */
+static void c06_run(void) {
+	qgen g; qgen_defaults(&g);
+	g.oracles = O_SUSPEND | O_ONCE;
+	g.opmask |= (1u << OP_SUSPEND) | (1u << OP_PAUSE);
+	g.qkindmask = (1u << QK_SERIAL) | (1u << QK_CONC);
+	g.min_queues = 1; g.max_queues = 3; g.inactive_pct = 30;
+	g.nest_pct = 45; g.nest_depth = 2;
+	g.suspend_depth_max = g_chance(1, 4) ? 200 : 8;
+	g.min_clients = 2; g.max_clients = 4; g.min_ops = 3; g.max_ops = (RC.cfg & CFG_THOROUGH) ? 10 : 7;
+	g.bodymask |= 1u << B_SLEEP;
+	qprog_run(&g);
+}
+const prop_def prop_C06 = { "C06", NULL, c06_run, qprog_counter_names,
+	"non-trivial: a suspend/resume or activation happened, >=2 items completed, and a pre-emption/stall was taken inside a queue's atomics; distinct = distinct schedule signatures among those" };
